@@ -23,6 +23,7 @@ STUBS = [
     "bincount/searchsorted/unique/nonzero have pure-Python object versions that fork on symbolic comparisons",
     "builtin float() in line_search / rg_space: identity on symbolic scalars",
     "utilities.check_dtype_or_none: dtype `object` (a symbolic field) is accepted as a sampling dtype",
+    "DiagonalOperator._fill_rest: a symbolic diagonal counts as complex iff it holds a complex symbolic scalar (the real code asks the dtype)",
 ]
 
 _installed = False
@@ -214,7 +215,11 @@ class NPProxy:
         if isinstance(x, SR):
             return False
         if _isobj(x):
-            return COMPLEX_MODE[0]
+            # an object array is complex iff it holds a complex scalar (a real
+            # field in a complex-mode scenario is an array of symbolic reals)
+            return any(isinstance(v, (SC, complex, np.complexfloating)) for v in x.reshape(-1))
+        if hasattr(x, "_val") and _isobj(getattr(x, "_val", None)):
+            return any(isinstance(v, (SC, complex, np.complexfloating)) for v in x._val.reshape(-1))
         return np.iscomplexobj(x)
 
     @staticmethod
@@ -352,6 +357,19 @@ def install():
             return a / b.conj()
         return orig_div(a, b)
     do.mul_conj2, do.div_conj2 = mul_conj2, div_conj2
+
+    # DiagonalOperator decides real/complex from the dtype of its diagonal; an
+    # object array stands for float64 or complex128 depending on what it holds
+    orig_fill = do.DiagonalOperator._fill_rest
+
+    def _fill_rest(self):
+        orig_fill(self)
+        v = self._ldiag._val if hasattr(self._ldiag, "_val") else self._ldiag
+        if _isobj(v):
+            self._complex = any(isinstance(e, (SC, complex, np.complexfloating)) for e in v.reshape(-1))
+            if not self._complex:
+                self._diagmin_cache = None
+    do.DiagonalOperator._fill_rest = _fill_rest
 
     orig_ict = ut.iscomplextype
 
